@@ -24,7 +24,7 @@ RULE = (
 ASSUMPTIONS = ["oracle: vf/oracle/pins.py (Fractions); known finding K3 recognised only by buggy-model replay of the word matcher"]
 REQUIRED = ["env.shards_with_other_hashseed", "calls.PinWords.pinword_to_perm", "calls.PinWordUtil.call", "calls.PinWords.sp_to_m", "calls.PinWords.m_to_sp", "calls.PinWords.quadrant",
             "calls.PinWords.factor_pinword", "calls.PinWords.pinword_occurrences_sp", "calls.PinWords.pinword_contains", "tables.checked",
-            "containment.decided", "containment.positive", "hook.numeral_pins", "hook.direction_pins", "aliasing.factor_list_mutated", "faults.injected", "long.factor_searches", "long.subpermutations_searched", "verylong.containment_decided", "ambient.perturbed_runs"]
+            "containment.decided", "containment.positive", "hook.numeral_pins", "hook.direction_pins", "aliasing.factor_list_mutated", "faults.injected", "long.factor_searches", "long.subpermutations_searched", "verylong.containment_decided", "ambient.perturbed_runs", "wordpairs.decided", "ephemeral.word_objects"]
 MIN_NONTRIVIAL = 500
 CTX = None
 MON = None
@@ -339,6 +339,62 @@ def chk_long(ctx, w, seed):
     chk_containment(ctx, w, rng.sample(range(4), 4))
 
 
+def chk_wordpair(ctx, w, u):
+    """word level, any pin word u (not only the tabulated ones): `u is found in w` against real containment of the decoded
+    permutations; disagreements are classified with the two word models exactly as in chk_containment"""
+    try:
+        truth = C.contains_bt(operm(w), operm(u))
+    except P.BadWord:
+        return
+    got = PinWords.pinword_contains(w, u)
+    ctx.ev()
+    ctx.count("wordpairs.decided")
+    if got:
+        ctx.nt(("wordpair", w, u))
+    if got is not truth:
+        buggy, fixed = P.word_contains(w, u, gap_rule=False), P.word_contains(w, u, gap_rule=True)
+        known = "pinword-adjacent-direction-factor" if (got is buggy and got and not truth and not fixed) else None
+        if not (not got and truth):  # (not finding ONE particular pin word of a contained pattern is no violation: another may be found)
+            report("wordpair", [w, u], f"pinword_contains({w!r}, {u!r}) = {got}, but perm({u!r}) = {operm(u)} inside perm({w!r}) = {operm(w)}: {truth}", known)
+
+
+def periodic_pairs(rng, count):
+    """u made of one factor repeated (or nearly), w a word that keeps repeating that factor's letters: matches may overlap"""
+    out = []
+    for _ in range(count):
+        num = rng.choice(P.QUADS)
+        a, b = rng.choice(P.VERT), rng.choice(P.HORI)
+        dirs = rng.choice([a + b, b + a])
+        f = num + (dirs * 2)[: rng.choice([2, 2, 3])]
+        u = f * rng.choice([2, 2, 3]) if rng.random() < 0.7 else f + rng.choice(P.QUADS) + dirs[:1]
+        for extra in (0, 1, 2, 3):
+            w = num + (dirs * 6)[: len(f) - 1 + extra + rng.choice([0, 2])]
+            out.append((w, u))
+            out.append((f + w[1:], u))
+    good = []
+    for w, u in out:
+        try:
+            P.place(w), P.place(u)
+        except P.BadWord:
+            continue
+        good.append((w, u))
+    return good
+
+
+def chk_ephemeral(ctx, w1, w2, u):
+    """the answer for a word must not depend on WHICH string object carries it: words built on the fly (and gone right after
+    the call) against the same words held in variables, in both orders"""
+    held = (PinWords.pinword_contains(w2, u), PinWords.pinword_contains(w1, u))
+    got = []
+    for w in (w1, w2, w1, w2):
+        got.append(PinWords.pinword_contains("".join(list(w)), "".join(list(u))))  # temporaries: freed before the next one exists
+        list(PinWords.pinword_occurrences("".join(list(w)), u))
+    ctx.ev()
+    ctx.count("ephemeral.word_objects")
+    if got != [held[1], held[0], held[1], held[0]]:
+        report("ephemeral", [w1, w2, u], f"pinword_contains answers {got} for freshly built word objects, {[held[1], held[0]] * 2} for the same words held in variables")
+
+
 def chk_verylong(ctx, w, sigmas):
     """words of more than a thousand letters: decoding (monitor) and containment of short patterns, judged geometrically.
     Only the direction the known finding cannot touch is asserted: a contained pattern must be found, and no call may fail."""
@@ -397,7 +453,7 @@ def chk_table_fault(ctx, n, k):
     chk_tables(ctx, n)
 
 
-CHECKS = {"verylong": chk_verylong, "ambient": chk_ambient, "long": chk_long, "tablefault": chk_table_fault, "word": chk_word, "strict": chk_strict, "mword": chk_mword, "tables": chk_tables, "contain": chk_containment}
+CHECKS = {"wordpair": chk_wordpair, "ephemeral": chk_ephemeral, "verylong": chk_verylong, "ambient": chk_ambient, "long": chk_long, "tablefault": chk_table_fault, "word": chk_word, "strict": chk_strict, "mword": chk_mword, "tables": chk_tables, "contain": chk_containment}
 
 
 def plan(tier, seed):
@@ -435,6 +491,13 @@ def run(ctx, spec):
             chk_long(ctx, w, rng.randrange(10 ** 6))
         for w in ("1URURUL", "1URURURD", "3DLDLDLU", "2ULULULULD", "1URURUL4RURURD", "41URURUL"):
             chk_long(ctx, w, rng.randrange(10 ** 6))
+        for w, u in periodic_pairs(rng, 25):
+            chk_wordpair(ctx, w, u)
+        for _ in range(60):
+            n = rng.randint(2, 6)
+            w1, w2 = rand_word(rng, n, 0.3), rand_word(rng, n, 0.3)
+            us = words_of(tuple(rng.sample(range(2), 2))) + words_of((0,))
+            chk_ephemeral(ctx, w1, w2, rng.choice(us))
         ctx.sample({"long_word": w, "perm_of_word": list(operm(w))})
         ctx.note("long words: lengths 6..14, staircases favoured; factors read off the word, sub-permutations of perm(w) of length 3..5")
         return
